@@ -9,7 +9,7 @@ use std::cell::RefCell;
 use std::collections::{BTreeMap, HashSet};
 use std::io::Write;
 use std::os::unix::fs::FileExt;
-use std::os::unix::process::ExitStatusExt;
+use std::os::unix::process::{CommandExt, ExitStatusExt};
 use std::path::{Path, PathBuf};
 use std::process::{Command, Stdio};
 use std::sync::atomic::{AtomicU64, Ordering};
@@ -932,6 +932,22 @@ pub fn check(prop: &dyn Property, all: &dyn Fn(&str) -> Option<&'static dyn Prop
         }
     }
 
+    // ---- coverage-guided stage (thorough tier) -----------------------------------------------
+    let mut guided_report: Option<serde_json::Value> = None;
+    if args.tier == Tier::Thorough && violation.is_none() && inconclusive.is_none() && prop.guided() {
+        let g = guided_stage(prop, &root, &run_dir, args.seed, &active, &known_sigs);
+        if let Some(rf) = g.violation {
+            violation = Some(rf);
+        }
+        if let Some(m) = g.inconclusive {
+            inconclusive = Some(m);
+        }
+        for (k, n) in g.known_hits {
+            *merged.res.known_hits.entry(k).or_insert(0) += n;
+        }
+        guided_report = Some(g.report);
+    }
+
     // ---- verdict & evidence --------------------------------------------------------------------
     let wall = t0.elapsed().as_secs_f64();
     let distinct = merged.keys.len() as u64;
@@ -967,6 +983,9 @@ pub fn check(prop: &dyn Property, all: &dyn Fn(&str) -> Option<&'static dyn Prop
     });
     if let Some(e) = prop.exhaustive_part(args.tier) {
         coverage["exhaustive_part"] = serde_json::Value::String(e);
+    }
+    if let Some(g) = guided_report {
+        coverage["coverage_guided"] = g;
     }
     if let Some(rf) = &violation {
         coverage["violation"] = serde_json::json!({"signature": rf.signature, "message": rf.message, "rendering": rf.rendering});
@@ -1019,6 +1038,219 @@ pub fn check(prop: &dyn Property, all: &dyn Fn(&str) -> Option<&'static dyn Prop
     }
     let _ = std::io::stdout().flush();
     EXIT_OK
+}
+
+struct Guided {
+    violation: Option<ReplayFile>,
+    inconclusive: Option<String>,
+    known_hits: BTreeMap<String, u64>,
+    report: serde_json::Value,
+}
+
+/// Coverage-guided search over choice vectors (libFuzzer through cargo-fuzz, target
+/// `guided/fuzz_targets/prop_words.rs`, built by `./check <ID> thorough`). The target runs the
+/// property's own generator and oracle on the words decoded from the input; every input it saves is
+/// confirmed here through a one-case child of this binary, minimised, and reported as an ordinary
+/// choice-vector replay file.
+fn guided_stage(prop: &dyn Property, root: &Path, run_dir: &Path, seed: u64, active: &[String], known_sigs: &[(String, String)]) -> Guided {
+    let id = prop.id();
+    let mut g = Guided { violation: None, inconclusive: None, known_hits: BTreeMap::new(), report: serde_json::json!({"ran": false}) };
+    let bin = root.join("guided/target/x86_64-unknown-linux-gnu/release/prop_words");
+    if std::env::var("VERIF_GUIDED").map(|v| v == "0").unwrap_or(false) {
+        g.report = serde_json::json!({"ran": false, "why": "VERIF_GUIDED=0"});
+        return g;
+    }
+    if !bin.exists() {
+        // `./check` builds the target before a thorough run and reports a build failure itself
+        g.report = serde_json::json!({"ran": false, "why": "guided/target/.../prop_words is not built (cargo +nightly fuzz unavailable?)"});
+        eprintln!("[{id}] coverage-guided stage skipped: {} not built", bin.display());
+        return g;
+    }
+    let env_u64 = |name: &str, default: u64| std::env::var(name).ok().and_then(|v| v.parse::<u64>().ok()).unwrap_or(default);
+    let workers = env_u64("VERIF_GUIDED_WORKERS", 12);
+    let runs = env_u64("VERIF_GUIDED_RUNS", prop.guided_runs());
+    let dir = run_dir.join("guided");
+    let _ = std::fs::remove_dir_all(&dir);
+    let corpus = dir.join("corpus");
+    let artifacts = dir.join("artifacts");
+    std::fs::create_dir_all(&corpus).expect("corpus dir");
+    std::fs::create_dir_all(&artifacts).expect("artifact dir");
+    // seed corpus: choice vectors from the same proptest strategy as the random stage (fixed seed)
+    {
+        let mut config = Config::default();
+        config.cases = 192;
+        config.failure_persistence = None;
+        config.rng_seed = RngSeed::Fixed(seed.wrapping_mul(0x9E37_79B9_7F4A_7C15) ^ super::hash_of(id) ^ 0x6775_6964_6564);
+        let mut runner = TestRunner::new(config);
+        let max_words = prop.max_words();
+        let strat = (0usize..=2).prop_flat_map(move |k| {
+            let hi = match k {
+                0 => (max_words / 8).max(1),
+                1 => (max_words / 2).max(1),
+                _ => max_words.max(1),
+            };
+            proptest::collection::vec(proptest::num::u32::ANY, 1..=hi)
+        });
+        let n = std::cell::Cell::new(0u32);
+        let _ = runner.run(&strat, |words| {
+            let k = n.get();
+            n.set(k + 1);
+            let _ = std::fs::write(corpus.join(format!("seed-{k:03}")), super::guided_bytes_from_words(&words));
+            Ok(())
+        });
+    }
+    let t0 = Instant::now();
+    let known_arg: String = known_sigs.iter().map(|(s, i)| format!("{s}={i}")).collect::<Vec<_>>().join(",");
+    let timeout = (2 * prop.watchdog_s()).max(30);
+    let status = Command::new(&bin)
+        .current_dir(&dir)
+        .arg("corpus")
+        .arg(format!("-runs={runs}"))
+        .arg(format!("-seed={}", (seed % 0xffff_fffe) + 1))
+        .arg(format!("-max_len={}", (2 * prop.max_words()).clamp(64, 16384)))
+        .arg("-len_control=0")
+        .arg(format!("-artifact_prefix={}/", artifacts.display()))
+        .arg(format!("-jobs={workers}"))
+        .arg(format!("-workers={workers}"))
+        // the target's own watchdog thread enforces the per-case limit (see prop_words.rs)
+        .arg("-timeout=100000")
+        .arg("-report_slow_units=100000")
+        .arg("-print_final_stats=1")
+        .arg("-rss_limit_mb=4096")
+        .env("QV_GUIDED_PROP", id)
+        .env("QV_GUIDED_ACTIVE", active.join(","))
+        .env("QV_GUIDED_KNOWN", &known_arg)
+        .env("QV_GUIDED_ARTIFACTS", &artifacts)
+        .env("QV_GUIDED_TIMEOUT_S", timeout.to_string())
+        .env("QV_EXE", std::env::current_exe().unwrap())
+        .env("VERIF_ROOT", root)
+        .stdout(Stdio::null())
+        .stderr(Stdio::null())
+        .process_group(0)
+        .spawn();
+    // safety net: the driver and its workers form a process group that is killed as a whole if the
+    // campaign does not end (inconclusive, never a verdict)
+    let deadline = Instant::now() + Duration::from_secs(env_u64("VERIF_GUIDED_DEADLINE_S", 2700));
+    let mut overran = false;
+    let status = match status {
+        Err(e) => Err(e),
+        Ok(mut child) => loop {
+            match child.try_wait() {
+                Ok(Some(st)) => break Ok(st),
+                Ok(None) => {
+                    if Instant::now() > deadline {
+                        overran = true;
+                        unsafe {
+                            libc::kill(-(child.id() as i32), libc::SIGKILL);
+                        }
+                        break child.wait();
+                    }
+                    std::thread::sleep(Duration::from_millis(100));
+                }
+                Err(e) => break Err(e),
+            }
+        },
+    };
+    let wall = t0.elapsed().as_secs_f64();
+    let mut executed = 0u64;
+    let mut cov = 0u64;
+    if let Ok(rd) = std::fs::read_dir(&dir) {
+        for e in rd.flatten() {
+            let name = e.file_name().to_string_lossy().into_owned();
+            if !(name.starts_with("fuzz-") && name.ends_with(".log")) {
+                continue;
+            }
+            let text = String::from_utf8_lossy(&std::fs::read(e.path()).unwrap_or_default()).into_owned();
+            for line in text.lines() {
+                if let Some(rest) = line.strip_prefix("stat::number_of_executed_units:") {
+                    executed += rest.trim().parse::<u64>().unwrap_or(0);
+                }
+                if let Some(i) = line.find(" cov: ") {
+                    let n: u64 = line[i + 6..].split_whitespace().next().and_then(|x| x.parse().ok()).unwrap_or(0);
+                    cov = cov.max(n);
+                }
+            }
+        }
+    }
+    let corpus_files = std::fs::read_dir(&corpus).map(|r| r.count()).unwrap_or(0);
+    let mut names: Vec<_> = std::fs::read_dir(&artifacts).map(|r| r.flatten().map(|e| e.path()).collect()).unwrap_or_default();
+    names.sort();
+    let mut discarded = 0u64;
+    for a in &names {
+        let bytes = std::fs::read(a).unwrap_or_default();
+        let case = Case::raw(super::words_from_guided_bytes(&bytes));
+        let fname = a.file_name().unwrap().to_string_lossy().into_owned();
+        let wd = 4 * prop.watchdog_s() + 10;
+        let one = spawn_one(id, &case, run_dir, active, wd);
+        if let Some(m) = &one.infra {
+            if g.inconclusive.is_none() {
+                g.inconclusive = Some(format!("coverage-guided stage: saved input {fname}: {m}"));
+            }
+            continue;
+        }
+        match one.failure {
+            None => {
+                if fname.starts_with("timeout-") || fname.starts_with("slow-unit-") || fname.starts_with("oom-") {
+                    // libFuzzer's per-input limits fire under machine load; the same case finishing in
+                    // a child of its own says nothing against the property
+                    discarded += 1;
+                } else if g.inconclusive.is_none() {
+                    g.inconclusive = Some(format!("coverage-guided stage: saved input {fname} does not fail when run alone: {}", short_case(&case)));
+                }
+            }
+            Some(raw) => {
+                // a death of the child is a verdict only where the property says so
+                let fl = if raw.sig == "hang" || raw.sig.starts_with("crash:") {
+                    let how = raw.sig.strip_prefix("crash:").unwrap_or("hang");
+                    match prop.classify_death(how, &case) {
+                        Some(f) => f,
+                        None => {
+                            if g.inconclusive.is_none() {
+                                g.inconclusive = Some(format!("coverage-guided stage: {how} within {wd}s, inconclusive for this property: {}", short_case(&case)));
+                            }
+                            continue;
+                        }
+                    }
+                } else {
+                    raw.clone()
+                };
+                if let Some((_, kid)) = known_sigs.iter().find(|(p, _)| sig_matches(p, &fl.sig)) {
+                    *g.known_hits.entry(kid.clone()).or_insert(0) += 1;
+                    continue;
+                }
+                if g.violation.is_none() {
+                    let sig = raw.sig.clone();
+                    let mut test = |c: &Case| {
+                        let o = spawn_one(id, c, run_dir, active, prop.watchdog_s() + 5);
+                        matches!(o.failure, Some(f) if f.sig == sig)
+                    };
+                    let small = minimize(&case, 400, &mut test);
+                    let again = spawn_one(id, &small, run_dir, active, wd);
+                    g.violation = Some(ReplayFile {
+                        property: id.to_string(),
+                        rendering: if again.render.is_empty() { short_case(&small) } else { again.render },
+                        case: small,
+                        signature: fl.sig,
+                        message: format!("{} (found by the coverage-guided stage)", fl.msg),
+                        tier: "thorough".to_string(),
+                    });
+                }
+            }
+        }
+    }
+    if overran && g.inconclusive.is_none() && g.violation.is_none() {
+        g.inconclusive = Some(format!("coverage-guided stage: the libFuzzer campaign did not end within its wall-clock limit and was stopped (see {})", dir.display()));
+    }
+    if !matches!(status, Ok(st) if st.success()) && names.is_empty() && g.inconclusive.is_none() {
+        g.inconclusive = Some(format!("coverage-guided stage: libFuzzer driver ended with {status:?} and saved no input (see {})", dir.display()));
+    }
+    println!("[{id}] coverage-guided: workers={workers} runs/worker={runs} executed={executed} edge_coverage={cov} corpus={corpus_files} saved_inputs={} discarded_as_load_noise={discarded} wall={wall:.0}s", names.len());
+    g.report = serde_json::json!({
+        "ran": true, "engine": "libFuzzer (cargo-fuzz), target guided/fuzz_targets/prop_words.rs: input bytes -> choice words -> the property's own generator and oracle",
+        "executions": executed, "edge_coverage": cov, "corpus_files": corpus_files, "saved_inputs": names.len(), "discarded_as_load_noise": discarded,
+        "workers": workers, "runs_per_worker": runs, "wall_s": wall, "seed_corpus": "192 choice vectors from the random stage's strategy",
+    });
+    g
 }
 
 fn short_case(case: &Case) -> String {
